@@ -135,7 +135,8 @@ def r4(ctx):
                 seg = [x for x, _ in evs[last + 1:i]]
                 if "stop_ping.wait" not in seg:
                     bad_wait = bad_wait or o
-                if "store:app.last_ping_tm" not in seg or seg.index("store:app.last_ping_tm") < max(j for j, x in enumerate(seg) if x == "stop_ping.wait"):
+                waits = [j for j, x in enumerate(seg) if x == "stop_ping.wait"]
+                if "store:app.last_ping_tm" not in seg or (waits and seg.index("store:app.last_ping_tm") < max(waits)):
                     bad_stamp = bad_stamp or o
                 if e.args != (Sym("payload"),):
                     bad_stamp = bad_stamp or o
